@@ -33,6 +33,13 @@ pub struct Case {
     /// Some: the program is loaded from a generated ELF with these (slot, name) symbols (aliases included)
     #[serde(default)]
     pub elf_syms: Option<Vec<(usize, String)>>,
+    /// Some: the stack comes from init_stack_program_start with these (argv, envp) instead of init_stack
+    #[serde(default)]
+    pub start_frame: Option<(Vec<String>, Vec<String>)>,
+    /// areas placed by the emulator itself before the run: (length, zeroed?) via
+    /// mem_init_zero_anywhere / mem_init_anywhere; the addresses handed out are part of the digest
+    #[serde(default)]
+    pub anywhere: Vec<(u64, bool)>,
 }
 
 pub struct C20;
@@ -106,7 +113,16 @@ pub fn run_once(c: &Case) -> Result<RunResult, String> {
     ax.write_fs(c.fs);
     ax.write_gs(c.gs);
     ax.mem_init_area(DATA, crate::mach::fill(c.seed, crate::native::ArenaKind::Rw, 0x200)).map_err(|e| e.to_string())?;
-    ax.init_stack(0x800).map_err(|e| e.to_string())?; // writes RSP explicitly
+    let mut placed: Vec<u64> = vec![];
+    for (k, (len, zeroed)) in c.anywhere.iter().enumerate() {
+        let r = if *zeroed { ax.mem_init_zero_anywhere(*len) } else { ax.mem_init_anywhere(crate::mach::fill(c.seed ^ k as u64, crate::native::ArenaKind::Ro, *len as usize), Some(format!("any{}", k))) };
+        placed.push(r.map_err(|e| e.to_string())?);
+    }
+    // either way RSP is written explicitly
+    match &c.start_frame {
+        None => placed.push(ax.init_stack(0x800).map_err(|e| e.to_string())?),
+        Some((argv, envp)) => placed.push(ax.init_stack_program_start(0x800, argv.clone(), envp.clone()).map_err(|e| e.to_string())?),
+    }
     ax.set_max_instructions(c.limit);
     let script = HookScript { outcomes: c.hooks.iter().map(|h| vec![h.2]).collect(), modify: c.hooks.iter().map(|h| h.3).collect(), register_inside: None };
     prog::reset_hooks(script);
@@ -168,6 +184,10 @@ pub fn run_once(c: &Case) -> Result<RunResult, String> {
     }
     let mut h = Fnv::new();
     let mut text = String::new();
+    for a in &placed {
+        h.u64(*a);
+        text.push_str(&format!("placed@{:#x} ", a));
+    }
     for i in 0..16 {
         if defined >> i & 1 == 1 {
             let v = ax.reg_read_64(GPR[i]).unwrap();
@@ -263,7 +283,7 @@ impl Property for C20 {
         let limit = 5 + t.below(120);
         let cross_process = t.below(16) == 0;
         let mut o = prog::ProgOpts::straight();
-        o.w = [6, 12, 12, 8, 6, 10, 6, 4, 2, 6, 3, 5, 4, 4, 0, 1];
+        o.w = [6, 12, 12, 8, 6, 10, 6, 4, 2, 6, 3, 5, 4, 4, 2, 1];
         o.w_extra = [4, 0, 0, 14];
         let mut p = vec![];
         for (i, row) in tape.iter().skip(1).enumerate() {
@@ -300,7 +320,17 @@ impl Property for C20 {
         // an ELF segment is padded with zero bytes up to its page end, and 00 00 is `add [rax],al`: a program
         // that runs off its end reads RAX
         let written = if elf_syms.is_some() { written | 1 } else { written };
-        Case { prog: p, written, seed, flags, fs, gs, limit, hooks, cross_process, xmm_written, elf_syms }
+        // the emulator's own placement decisions (string areas, anywhere areas) are outputs too
+        let start_frame = if t.below(4) == 0 {
+            let words = ["", "a", "prog", "--flag", "KEY=value", "x=1", "a-somewhat-longer-argument-string"];
+            let na = t.below(4) as usize;
+            let ne = t.below(3) as usize;
+            Some(((0..na).map(|_| t.pick(&words).to_string()).collect(), (0..ne).map(|_| t.pick(&words).to_string()).collect()))
+        } else {
+            None
+        };
+        let anywhere = (0..t.weighted(&[60, 25, 15])).map(|_| (t.pick(&[1u64, 8, 0x40, 0x1000, 0x1001]), t.bool())).collect();
+        Case { prog: p, written, seed, flags, fs, gs, limit, hooks, cross_process, xmm_written, elf_syms, start_frame, anywhere }
     }
 
     fn exec(&mut self, c: &Case) -> CaseOut {
@@ -321,6 +351,15 @@ impl Property for C20 {
         }
         if c.elf_syms.is_some() {
             out = out.class("elf-with-symbol-aliases");
+        }
+        if c.start_frame.is_some() {
+            out = out.class("entry-frame-with-strings");
+        }
+        if !c.anywhere.is_empty() {
+            out = out.class("anywhere-areas");
+        }
+        if c.prog.iter().any(|p| matches!(p, PI::Syscall)) && c.hooks.len() >= 2 {
+            out = out.class("syscall-with-several-hooks");
         }
         if c.prog.iter().any(|p| matches!(p, PI::Xmm { .. })) {
             out = out.class("uses-xmm");
@@ -372,10 +411,10 @@ impl Property for C20 {
     }
 
     fn rule(&self) -> String {
-        "cases: slot-grid programs of 2–20 instructions (all generated instruction kinds incl. stack, calls, register-indirect transfers) where every register any instruction may read (iced used_registers incl. implicit and partial-width destinations) is written explicitly and the others keep the constructor's random fill; explicit flags, FS/GS, a data area, a stack; XMM moves/xor/load/store incl. both MOVUPS register encodings; 1/3 of the programs loaded from a generated ELF whose symbol table has aliases (two names on one address); 0–3 identical scripted hooks; oracle: two independently constructed machines in one process — and for 1/16 of the cases a separately exec'd process (fresh ASLR and hash seeds) — must agree on a digest of defined registers, flags, FS/GS, every area byte, executed count, structured trace, call stack, rendered trace()/call_stack() text, resolve_symbol of every symbol address, result and full error text, and hook events; non-trivial = ≥1 register left random and ≥2 instructions; distinct by hash(case)".into()
+        "cases: slot-grid programs of 2–20 instructions (all generated instruction kinds incl. stack, calls, register-indirect transfers) where every register any instruction may read (iced used_registers incl. implicit and partial-width destinations) is written explicitly and the others keep the constructor's random fill; explicit flags, FS/GS, a data area, a stack; XMM moves/xor/load/store incl. both MOVUPS register encodings; 1/3 of the programs loaded from a generated ELF whose symbol table has aliases (two names on one address); 0–3 identical scripted hooks (incl. unhooked SYSCALLs beside hooks on other mnemonics); for 1/4 of the cases the stack is an entry frame with argv/envp strings and 0–2 areas are placed by mem_init_anywhere / mem_init_zero_anywhere, the addresses handed out being part of the digest; oracle: two independently constructed machines in one process — and for 1/16 of the cases a separately exec'd process (fresh ASLR and hash seeds) — must agree on a digest of defined registers, flags, FS/GS, every area byte, executed count, structured trace, call stack, rendered trace()/call_stack() text, resolve_symbol of every symbol address, result and full error text, and hook events; non-trivial = ≥1 register left random and ≥2 instructions; distinct by hash(case)".into()
     }
     fn required_classes(&self, _tier: Tier) -> Vec<String> {
-        ["ends-in-error", "finishes", "with-hooks", "cross-process", "elf-with-symbol-aliases", "uses-xmm"].iter().map(|s| s.to_string()).collect()
+        ["ends-in-error", "finishes", "with-hooks", "cross-process", "elf-with-symbol-aliases", "uses-xmm", "entry-frame-with-strings", "anywhere-areas", "syscall-with-several-hooks"].iter().map(|s| s.to_string()).collect()
     }
     fn assumptions(&self) -> Vec<String> {
         vec!["the defined set (explicitly written ∪ fully written by an executed instruction or a hook; GPRs and XMM) is what is compared".into(), "pipe descriptor numbers do not occur (no pipe handler in these programs)".into()]
